@@ -269,6 +269,14 @@ func (eds *EdsGenerator) buildEndpoints(proxy *model.Proxy,
 		}
 		resources = append(resources, resource)
 		simhook.Yield("cache.beforeAdd", proxy.ID, clusterName)
+		// svc is the proxy's view of the service: under a Sidecar with a port-bound egress listener it carries only
+		// the imported ports. The empty result for a port outside that view must not be shared with proxies whose
+		// view has the port; the cache key does not describe the view.
+		if svc != nil && !isSelfDiscoveryCluster {
+			if _, f := svc.Ports.GetByPort(port); !f {
+				continue
+			}
+		}
 		eds.Cache.Add(&builder, req, resource)
 	}
 	return resources, model.XdsLogDetails{
